@@ -173,7 +173,8 @@ fn script(r: &mut Rng, p: &Profile, in_cb: bool) -> Vec<Act> {
         if r.chance(p.handler_sleep_pm) {
             s.push(Act::Sleep(1 + r.below(p.max_sleep)));
         } else if r.chance(p.script_ctx_pm) {
-            s.push(if r.chance(500) { Act::CtxStop } else { Act::CtxRestart });
+            // a restart requested from a lifecycle callback would restart forever
+            s.push(if in_cb || r.chance(500) { Act::CtxStop } else { Act::CtxRestart });
         } else if r.chance(p.timers_pm / 2) {
             s.push(timer(r));
         } else if !in_cb && r.chance(p.panic_pm / 3) {
